@@ -3,7 +3,10 @@
    case kind 1: (1 pre secret write_ok reply)       -> (text-read-by-server? err state events probe-routed)
      pre   = (0) transport refused | (1) connect/stream header failed | (2 id)
      reply = (0) handshake | (1 cond) stream error | (2 k) other packet | (3) read error/closed
-     err   = 0 nil | 1 ConnError non-permanent | 2 ConnError permanent *)
+     err   = 0 nil | 1 ConnError non-permanent | 2 ConnError permanent
+   case kind 2: (2 (id ...) secret)                 -> (digest ...)      one Component value, successive calls
+   case kind 3: (3 ((id reply) ...) secret)         -> ((text-read-by-server? err state probe-routed) ...)
+                                                       one Component value, successive connections *)
 From Coq Require Import List ZArith NArith Bool.
 From XV Require Import Lib.Sx Model.Sha1 Model.Hex Model.Component.
 Import ListNotations.
@@ -11,7 +14,9 @@ Open Scope Z_scope.
 
 Inductive c16_input :=
 | InDigest (id secret : str)
-| InConnect (secret : str) (e : env).
+| InConnect (secret : str) (e : env)
+| InDigestSeq (ids : list str) (secret : str)
+| InReconnect (secret : str) (es : list env).
 
 Definition dec_pre (x : sx) : option pre :=
   match x with
@@ -30,8 +35,16 @@ Definition dec_reply (x : sx) : option reply :=
   | _ => None
   end.
 
+Definition dec_session (x : sx) : option env :=
+  match x with
+  | SL [SS id; r] => do r' <- dec_reply r; Some (Env (PConnected id) true r')
+  | _ => None
+  end.
+
 Definition dec_input (x : sx) : option c16_input :=
   match x with
+  | SL [SZ 2; ids; SS secret] => do l <- as_list as_s ids; Some (InDigestSeq l secret)
+  | SL [SZ 3; ss; SS secret] => do l <- as_list dec_session ss; Some (InReconnect secret l)
   | SL [SZ 0; SS id; SS secret] => Some (InDigest id secret)
   | SL [SZ 1; p; SS secret; w; r] =>
       do p' <- dec_pre p; do w' <- as_b w; do r' <- dec_reply r;
@@ -55,8 +68,13 @@ Definition server_text (written : list str) : sx :=
   | _ => SL [SZ (-2)]
   end.
 
+Definition session_sx (r : result) : sx :=
+  SL [server_text (r_written r); err_sx (r_err r); SN (cstate_num (r_state r)); SB (probe_routed r)].
+
 Definition run_typed (i : c16_input) : sx :=
   match i with
+  | InDigestSeq ids secret => SL (map SS (handshakes secret ids))
+  | InReconnect secret es => SL (map session_sx (component_sessions secret es))
   | InDigest id secret => SL [SS (handshake id secret)]
   | InConnect secret e =>
       let r := component_connect secret e in
